@@ -188,7 +188,7 @@ func ruleLoopsCoverContainers(r *Run, rule string, k *serKind) {
 		b := t.Len
 		ok := !strings.HasPrefix(b, "NONCANONICAL") && b != "?"
 		// a for-loop bound must be len(X) or a construction-time field of the receiver
-		if ok && !isRangeable(k.Writer, t) {
+		if ok && !isRangeable(k.Writer, t) && !t.Whole {
 			ok = strings.HasPrefix(b, "len(") || strings.HasPrefix(b, k.Writer.RecvName+".")
 		}
 		r.Check(ok, rule, key, site, "writer loop covers the whole container "+b, "writer loop bound "+b+" does not cover a whole container (elements may be left out of the stream)")
@@ -229,38 +229,62 @@ func ruleByteCounts(r *Run, rule string, k *serKind) {
 		}
 		// types covered by the helper's type switch
 		covered := map[string]bool{}
+		// the type switch may live in the closure itself or in a package function it calls (bytes += sizeOf(data))
+		var switchRoots []ast.Node
+		switchRoots = append(switchRoots, side.HelperFn)
 		ast.Inspect(side.HelperFn, func(n ast.Node) bool {
-			cc, ok := n.(*ast.CaseClause)
-			if !ok {
-				return true
-			}
-			for _, e := range cc.List {
-				if tv, ok := w.Info.Types[e]; ok && tv.IsType() {
-					t := tv.Type
-					if p, ok := t.Underlying().(*types.Pointer); ok && !side.Writer {
-						t = p.Elem()
-					}
-					wd, _ := widthOf(t)
-					covered[wd] = true
-					// the increment in the clause must equal the width
-					want := map[string]string{"b8": "1", "b16": "2", "b32": "4", "b64": "8"}[strings.SplitN(wd, ":", 2)[0]]
-					if want != "" {
-						okInc := false
-						for _, st := range cc.Body {
-							if as, ok := st.(*ast.AssignStmt); ok && as.Tok == token.ADD_ASSIGN && len(as.Rhs) == 1 {
-								if bl, ok := as.Rhs[0].(*ast.BasicLit); ok && bl.Value == want {
-									okInc = true
-								}
+			if c, ok := n.(*ast.CallExpr); ok {
+				if id, ok := c.Fun.(*ast.Ident); ok {
+					if obj, ok := w.Info.Uses[id].(*types.Func); ok && obj.Pkg() == w.Types {
+						if sf := w.Prog.FuncValue(obj); sf != nil {
+							if d := w.Decl(w.Name(sf)); d != nil {
+								switchRoots = append(switchRoots, d)
 							}
-						}
-						if !okInc {
-							r.Bad(rule, k.Name+":"+fname+":increment:"+wd, w.Pos(cc.Pos())+" (*"+k.Name+")."+fname, "the counting helper does not add "+want+" bytes for "+wd)
 						}
 					}
 				}
 			}
 			return true
 		})
+		for _, root := range switchRoots {
+			ast.Inspect(root, func(n ast.Node) bool {
+				cc, ok := n.(*ast.CaseClause)
+				if !ok {
+					return true
+				}
+				for _, e := range cc.List {
+					if tv, ok := w.Info.Types[e]; ok && tv.IsType() {
+						t := tv.Type
+						if p, ok := t.Underlying().(*types.Pointer); ok && !side.Writer {
+							t = p.Elem()
+						}
+						wd, _ := widthOf(t)
+						covered[wd] = true
+						// the increment in the clause must equal the width
+						want := map[string]string{"b8": "1", "b16": "2", "b32": "4", "b64": "8"}[strings.SplitN(wd, ":", 2)[0]]
+						if want != "" {
+							okInc := false
+							for _, st := range cc.Body {
+								if as, ok := st.(*ast.AssignStmt); ok && as.Tok == token.ADD_ASSIGN && len(as.Rhs) == 1 {
+									if bl, ok := as.Rhs[0].(*ast.BasicLit); ok && bl.Value == want {
+										okInc = true
+									}
+								}
+								if rs, ok := st.(*ast.ReturnStmt); ok && len(rs.Results) == 1 {
+									if bl, ok := rs.Results[0].(*ast.BasicLit); ok && bl.Value == want {
+										okInc = true
+									}
+								}
+							}
+							if !okInc {
+								r.Bad(rule, k.Name+":"+fname+":increment:"+wd, w.Pos(cc.Pos())+" (*"+k.Name+")."+fname, "the counting helper does not add "+want+" bytes for "+wd)
+							}
+						}
+					}
+				}
+				return true
+			})
+		}
 		var missing []string
 		for _, t := range fieldsOnly(flattenToks(side.Toks)) {
 			if !covered[t.Width] {
@@ -284,7 +308,17 @@ func ruleByteCounts(r *Run, rule string, k *serKind) {
 // rawCounted: the statement list containing the raw call has, right after the statement holding it, `count += <expr mentioning the length>`.
 func rawCounted(side *fmtSide, t *fTok) bool {
 	found := false
-	ast.Inspect(side.Decl.Body, func(n ast.Node) bool {
+	for _, root := range side.Roots {
+		if rawCountedIn(root, t) {
+			found = true
+		}
+	}
+	return found
+}
+
+func rawCountedIn(root ast.Node, t *fTok) bool {
+	found := false
+	ast.Inspect(root, func(n ast.Node) bool {
 		var list []ast.Stmt
 		switch b := n.(type) {
 		case *ast.BlockStmt:
@@ -314,6 +348,9 @@ func rawCounted(side *fmtSide, t *fTok) bool {
 					if as, ok := list[j].(*ast.AssignStmt); ok && as.Tok == token.ADD_ASSIGN && len(as.Rhs) == 1 {
 						rhs := exprStr(as.Rhs[0])
 						l := t.Len
+						if t.CountLen != "" {
+							l = t.CountLen
+						}
 						if strings.Contains(rhs, l) || (isNumber(l) && rhs == l) {
 							found = true
 						}
@@ -552,109 +589,115 @@ func ruleReadErrors(r *Run, rule string, k *serKind) {
 			fname = "WriteTo"
 		}
 		checked := map[token.Pos]bool{}
-		ast.Inspect(side.Decl.Body, func(n ast.Node) bool {
-			if fl, ok := n.(*ast.FuncLit); ok && fl == side.HelperFn {
-				return false
-			}
-			ifs, ok := n.(*ast.IfStmt)
-			if !ok || ifs.Init == nil {
-				return true
-			}
-			cs := exprStr(ifs.Cond)
-			if cs != "err != nil" { // exactly this test: a narrowed one (`err != nil && !benign(err)`) lets some read errors through
-				return true
-			}
-			returns := false
-			for _, s := range ifs.Body.List {
-				if rs, ok := s.(*ast.ReturnStmt); ok && len(rs.Results) > 0 && exprStr(rs.Results[len(rs.Results)-1]) != "nil" {
-					returns = true
+		for _, root := range side.Roots {
+			ast.Inspect(root, func(n ast.Node) bool {
+				if fl, ok := n.(*ast.FuncLit); ok && fl == side.HelperFn {
+					return false
 				}
-			}
-			if !returns {
+				ifs, ok := n.(*ast.IfStmt)
+				if !ok || ifs.Init == nil {
+					return true
+				}
+				cs := exprStr(ifs.Cond)
+				if cs != "err != nil" { // exactly this test: a narrowed one (`err != nil && !benign(err)`) lets some read errors through
+					return true
+				}
+				returns := false
+				for _, s := range ifs.Body.List {
+					if rs, ok := s.(*ast.ReturnStmt); ok && len(rs.Results) > 0 && exprStr(rs.Results[len(rs.Results)-1]) != "nil" {
+						returns = true
+					}
+				}
+				if !returns {
+					return true
+				}
+				ast.Inspect(ifs.Init, func(m ast.Node) bool {
+					if c, ok := m.(*ast.CallExpr); ok {
+						checked[c.Pos()] = true
+					}
+					return true
+				})
 				return true
-			}
-			ast.Inspect(ifs.Init, func(m ast.Node) bool {
-				if c, ok := m.(*ast.CallExpr); ok {
-					checked[c.Pos()] = true
+			})
+		}
+		// alternatively: `x, err := call(); if err != nil { return }` as two statements
+		for _, root := range side.Roots {
+			ast.Inspect(root, func(n ast.Node) bool {
+				var list []ast.Stmt
+				switch b := n.(type) {
+				case *ast.BlockStmt:
+					list = b.List
+				case *ast.CaseClause:
+					list = b.Body
+				default:
+					return true
+				}
+				for i := 0; i+1 < len(list); i++ {
+					as, ok := list[i].(*ast.AssignStmt)
+					if !ok {
+						continue
+					}
+					definesErr := false
+					for _, l := range as.Lhs {
+						if exprStr(l) == "err" {
+							definesErr = true
+						}
+					}
+					if !definesErr {
+						continue
+					}
+					// the next control statement must be `if err != nil { return …, non-nil }`; plain assignments that do not
+					// touch err may come in between (e.g. `bytesRead += n`)
+					for j := i + 1; j < len(list); j++ {
+						if a2, ok := list[j].(*ast.AssignStmt); ok {
+							touches := false
+							for _, l := range a2.Lhs {
+								if exprStr(l) == "err" {
+									touches = true
+								}
+							}
+							if !touches {
+								continue
+							}
+							break
+						}
+						ifs, ok := list[j].(*ast.IfStmt)
+						if !ok || ifs.Init != nil || exprStr(ifs.Cond) != "err != nil" {
+							break
+						}
+						returns := false
+						for _, s := range ifs.Body.List {
+							if rs, ok := s.(*ast.ReturnStmt); ok && len(rs.Results) > 0 && exprStr(rs.Results[len(rs.Results)-1]) != "nil" {
+								returns = true
+							}
+						}
+						if returns {
+							ast.Inspect(as, func(m ast.Node) bool {
+								if c, ok := m.(*ast.CallExpr); ok {
+									checked[c.Pos()] = true
+								}
+								return true
+							})
+						}
+						break
+					}
 				}
 				return true
 			})
-			return true
-		})
-		// alternatively: `x, err := call(); if err != nil { return }` as two statements
-		ast.Inspect(side.Decl.Body, func(n ast.Node) bool {
-			var list []ast.Stmt
-			switch b := n.(type) {
-			case *ast.BlockStmt:
-				list = b.List
-			case *ast.CaseClause:
-				list = b.Body
-			default:
+		}
+		// `return idx.sub.ReadFrom(r)` / `return io.ReadFull(...)` style tail calls propagate the error as well
+		for _, root := range side.Roots {
+			ast.Inspect(root, func(n ast.Node) bool {
+				if rs, ok := n.(*ast.ReturnStmt); ok {
+					for _, e := range rs.Results {
+						if c, ok := e.(*ast.CallExpr); ok {
+							checked[c.Pos()] = true
+						}
+					}
+				}
 				return true
-			}
-			for i := 0; i+1 < len(list); i++ {
-				as, ok := list[i].(*ast.AssignStmt)
-				if !ok {
-					continue
-				}
-				definesErr := false
-				for _, l := range as.Lhs {
-					if exprStr(l) == "err" {
-						definesErr = true
-					}
-				}
-				if !definesErr {
-					continue
-				}
-				// the next control statement must be `if err != nil { return …, non-nil }`; plain assignments that do not
-				// touch err may come in between (e.g. `bytesRead += n`)
-				for j := i + 1; j < len(list); j++ {
-					if a2, ok := list[j].(*ast.AssignStmt); ok {
-						touches := false
-						for _, l := range a2.Lhs {
-							if exprStr(l) == "err" {
-								touches = true
-							}
-						}
-						if !touches {
-							continue
-						}
-						break
-					}
-					ifs, ok := list[j].(*ast.IfStmt)
-					if !ok || ifs.Init != nil || exprStr(ifs.Cond) != "err != nil" {
-						break
-					}
-					returns := false
-					for _, s := range ifs.Body.List {
-						if rs, ok := s.(*ast.ReturnStmt); ok && len(rs.Results) > 0 && exprStr(rs.Results[len(rs.Results)-1]) != "nil" {
-							returns = true
-						}
-					}
-					if returns {
-						ast.Inspect(as, func(m ast.Node) bool {
-							if c, ok := m.(*ast.CallExpr); ok {
-								checked[c.Pos()] = true
-							}
-							return true
-						})
-					}
-					break
-				}
-			}
-			return true
-		})
-		// `return idx.sub.ReadFrom(r)` style tail calls propagate the error as well
-		ast.Inspect(side.Decl.Body, func(n ast.Node) bool {
-			if rs, ok := n.(*ast.ReturnStmt); ok {
-				for _, e := range rs.Results {
-					if c, ok := e.(*ast.CallExpr); ok {
-						checked[c.Pos()] = true
-					}
-				}
-			}
-			return true
-		})
+			})
+		}
 		bad := 0
 		for _, c := range side.Calls {
 			if !checked[c.Pos()] {
@@ -685,14 +728,20 @@ func ruleReadErrors(r *Run, rule string, k *serKind) {
 		// success is returned only at the end: no `return …, nil` before the last stream operation
 		var lastCall token.Pos
 		for _, c := range side.Calls {
-			if c.Pos() > lastCall {
+			// operations inside inlined package functions are represented by their call site
+			if c.Pos() > lastCall && c.Pos() >= side.Decl.Pos() && c.Pos() < side.Decl.End() {
 				lastCall = c.Pos()
+			}
+		}
+		for _, p := range side.Sites {
+			if p > lastCall && p >= side.Decl.Pos() && p < side.Decl.End() {
+				lastCall = p
 			}
 		}
 		early := ""
 		ast.Inspect(side.Decl.Body, func(n ast.Node) bool {
-			if fl, ok := n.(*ast.FuncLit); ok && fl == side.HelperFn {
-				return false
+			if _, ok := n.(*ast.FuncLit); ok {
+				return false // a return inside a closure does not return from the function
 			}
 			if rs, ok := n.(*ast.ReturnStmt); ok && len(rs.Results) > 0 && exprStr(rs.Results[len(rs.Results)-1]) == "nil" && rs.Pos() < lastCall {
 				early = w.Pos(rs.Pos())
@@ -748,11 +797,6 @@ func magicAndVersion(w *World, k *serKind) (wm, rm, wv, rv string) {
 			return true
 		}
 		l := exprStr(be.X)
-		if strings.HasPrefix(l, "string(magic") || l == "magicStr" {
-			if s, ok := constStringOf(w.Info, be.Y); ok {
-				rm = s
-			}
-		}
 		if l == "version" {
 			if tv, ok := w.Info.Types[be.Y]; ok && tv.Value != nil {
 				rv = tv.Value.ExactString()
@@ -760,6 +804,80 @@ func magicAndVersion(w *World, k *serKind) (wm, rm, wv, rv string) {
 		}
 		return true
 	})
+	// magic: the first raw buffer read is compared (string(buf) != "XXXX", !bytes.Equal(buf, []byte("XXXX")), buf != [4]byte{…})
+	// in a condition whose body returns an error
+	buf := ""
+	for _, t := range flattenToks(k.Reader.Toks) {
+		if t.Kind == "RAW" {
+			buf = t.Arg
+			break
+		}
+	}
+	if buf != "" {
+		ast.Inspect(k.RDecl.Body, func(n ast.Node) bool {
+			ifs, ok := n.(*ast.IfStmt)
+			if !ok || rm != "" {
+				return true
+			}
+			names := []string{buf}
+			for obj, def := range k.Reader.Defs {
+				if identIn(exprStr(def), buf) {
+					names = append(names, obj.Name())
+				}
+			}
+			mentions := false
+			for _, nm := range names {
+				if identIn(exprStr(ifs.Cond), nm) {
+					mentions = true
+				}
+			}
+			if !mentions {
+				return true
+			}
+			returnsErr := false
+			for _, st := range ifs.Body.List {
+				if rs, ok := st.(*ast.ReturnStmt); ok && len(rs.Results) > 0 && exprStr(rs.Results[len(rs.Results)-1]) != "nil" {
+					returnsErr = true
+				}
+			}
+			if !returnsErr {
+				return true
+			}
+			// the rejection must be the inequality itself
+			neq := false
+			switch c := ifs.Cond.(type) {
+			case *ast.BinaryExpr:
+				neq = c.Op == token.NEQ
+			case *ast.UnaryExpr:
+				neq = c.Op == token.NOT
+			}
+			if !neq {
+				return true
+			}
+			ast.Inspect(ifs.Cond, func(m ast.Node) bool {
+				if e, ok := m.(ast.Expr); ok {
+					if sv, ok := constStringOf(w.Info, e); ok && len(sv) == 4 {
+						rm = sv
+					}
+				}
+				if cl, ok := m.(*ast.CompositeLit); ok {
+					sv := ""
+					for _, el := range cl.Elts {
+						if tv, ok := w.Info.Types[el]; ok && tv.Value != nil {
+							if v, ok := constantInt(tv); ok {
+								sv += string(rune(v))
+							}
+						}
+					}
+					if len(sv) == 4 {
+						rm = sv
+					}
+				}
+				return true
+			})
+			return true
+		})
+	}
 	return
 }
 
@@ -786,37 +904,71 @@ func ruleReaderFlow(r *Run, rule string, k *serKind) {
 		r.Unres(rule, k.Name+":reader-param", "io.Reader parameter not found")
 		return
 	}
-	allowed := map[token.Pos]bool{}
-	ast.Inspect(side.Decl.Body, func(n ast.Node) bool {
-		c, ok := n.(*ast.CallExpr)
-		if !ok {
-			return true
-		}
-		name := calleeOfExpr(w.Info, c)
-		okCall := name == "encoding/binary.Read" || name == "io.ReadFull"
-		if sel, ok := c.Fun.(*ast.SelectorExpr); ok && sel.Sel.Name == "ReadFrom" {
-			okCall = true
-		}
-		if okCall && len(c.Args) > 0 {
-			if id, ok := c.Args[0].(*ast.Ident); ok {
-				allowed[id.Pos()] = true
-			}
-		}
-		return true
-	})
 	bad := ""
 	uses := 0
-	ast.Inspect(side.Decl.Body, func(n ast.Node) bool {
-		id, ok := n.(*ast.Ident)
-		if !ok || w.Info.Uses[id] != side.IOParam {
+	var checkFlow func(body ast.Node, param types.Object, depth int)
+	checkFlow = func(body ast.Node, param types.Object, depth int) {
+		allowed := map[token.Pos]bool{}
+		ast.Inspect(body, func(n ast.Node) bool {
+			c, ok := n.(*ast.CallExpr)
+			if !ok {
+				return true
+			}
+			name := calleeOfExpr(w.Info, c)
+			okCall := name == "encoding/binary.Read" || name == "io.ReadFull"
+			if sel, ok := c.Fun.(*ast.SelectorExpr); ok && sel.Sel.Name == "ReadFrom" {
+				okCall = true
+			}
+			if okCall && len(c.Args) > 0 {
+				if id, ok := c.Args[0].(*ast.Ident); ok {
+					allowed[id.Pos()] = true
+				}
+			}
+			// handed on to a comet function: its parameter must satisfy the same rule
+			var obj *types.Func
+			switch f := c.Fun.(type) {
+			case *ast.Ident:
+				obj, _ = w.Info.Uses[f].(*types.Func)
+			case *ast.SelectorExpr:
+				obj, _ = w.Info.Uses[f.Sel].(*types.Func)
+			}
+			if obj != nil && obj.Pkg() == w.Types && depth < 3 && obj.Name() != "ReadFrom" {
+				if sf := w.Prog.FuncValue(obj); sf != nil {
+					if d := w.Decl(w.Name(sf)); d != nil && d.Body != nil {
+						for i, a := range c.Args {
+							id, ok := a.(*ast.Ident)
+							if !ok || w.Info.Uses[id] != param {
+								continue
+							}
+							j := 0
+							for _, f := range d.Type.Params.List {
+								for _, nm := range f.Names {
+									if j == i {
+										allowed[id.Pos()] = true
+										checkFlow(d.Body, w.Info.Defs[nm], depth+1)
+									}
+									j++
+								}
+							}
+						}
+					}
+				}
+			}
 			return true
-		}
-		uses++
-		if !allowed[id.Pos()] {
-			bad = w.Pos(id.Pos())
-		}
-		return true
-	})
+		})
+		ast.Inspect(body, func(n ast.Node) bool {
+			id, ok := n.(*ast.Ident)
+			if !ok || w.Info.Uses[id] != param {
+				return true
+			}
+			uses++
+			if !allowed[id.Pos()] {
+				bad = w.Pos(id.Pos())
+			}
+			return true
+		})
+	}
+	checkFlow(side.Decl.Body, side.IOParam, 0)
 	r.Check(bad == "" && uses > 0, rule, k.Name+":reader-flow", w.Pos(side.Decl.Pos())+" (*"+k.Name+").ReadFrom",
 		fmt.Sprintf("the reader parameter is used %d times, only as the stream of binary.Read / io.ReadFull / nested ReadFrom (exact consumption)", uses),
 		"the reader parameter escapes at "+bad+" (wrapped / buffered / stored): bytes beyond this index's section may be consumed")
@@ -946,15 +1098,34 @@ func ruleHybridPartOrder(r *Run, rule string) {
 	}
 	r.Analysed(w.Name(wf), w.Name(rf))
 	order := func(fn *ssa.Function, m string) []string {
-		var calls []*ssa.Call
-		for _, c := range invokesOf(fn, m) {
-			calls = append(calls, c)
+		type ent struct {
+			pos token.Pos
+			s   string
 		}
-		sort.Slice(calls, func(i, j int) bool { return calls[i].Pos() < calls[j].Pos() })
+		var ents []ent
 		c := NewCanon(w)
+		for _, call := range invokesOf(fn, m) {
+			ents = append(ents, ent{call.Pos(), strings.TrimPrefix(c.S(call.Call.Value), "P0.") + "→" + c.S(call.Call.Args[0])})
+		}
+		// through an extracted helper: helper(stream, sub-index, …) whose body invokes m on its parameter
+		for _, cs := range callsIn(fn, func(cc *ssa.CallCommon) bool {
+			g := staticCallee(cc)
+			return g != nil && g.Pkg == w.SPkg && len(invokesOf(g, m)) > 0
+		}) {
+			g := staticCallee(cs.Common())
+			ch := NewCanon(w)
+			for _, inv := range invokesOf(g, m) {
+				sub, okS := translatePath(c, ch.S(inv.Call.Value), cs.Common().Args, nil)
+				strm, okT := translatePath(c, ch.S(inv.Call.Args[0]), cs.Common().Args, nil)
+				if okS && okT {
+					ents = append(ents, ent{cs.Pos(), strings.TrimPrefix(sub, "P0.") + "→" + strm})
+				}
+			}
+		}
+		sort.Slice(ents, func(i, j int) bool { return ents[i].pos < ents[j].pos })
 		var out []string
-		for _, call := range calls {
-			out = append(out, strings.TrimPrefix(c.S(call.Call.Value), "P0.")+"→"+c.S(call.Call.Args[0]))
+		for _, e := range ents {
+			out = append(out, e.s)
 		}
 		return out
 	}
@@ -1071,4 +1242,82 @@ func valueNameHint(w *World, fn *ssa.Function, v ssa.Value) string {
 		return c.S(v)
 	}
 	return out
+}
+
+// ruleImplicitInvariants re-checks the invariants behind the implicit loop bounds of implicitPairs instead of trusting them.
+func ruleImplicitInvariants(r *Run, rule string) {
+	w := r.W
+	r.Doc(rule, "an implicit loop bound of the stream no longer matches what the writer emits: reload reads garbage")
+	ks, err := vecKinds(w)
+	if err != nil {
+		r.Unres(rule, "inv:kinds", err.Error())
+		return
+	}
+	for _, k := range ks {
+		// (a) stored vectors have exactly dim components: Add rejects any other length before it stores
+		fn := k.Add
+		c := NewCanon(w)
+		var dimIf *ssa.If
+		allInstrs(fn, func(in ssa.Instruction) {
+			iff, ok := in.(*ssa.If)
+			if !ok {
+				return
+			}
+			bo, ok := iff.Cond.(*ssa.BinOp)
+			if !ok || bo.Op != token.NEQ {
+				return
+			}
+			l, rr := c.S(bo.X), c.S(bo.Y)
+			if (l == "len(get:vector(P1))" && rr == "P0.dim") || (rr == "len(get:vector(P1))" && l == "P0.dim") {
+				if ret, ok := iff.Block().Succs[0].Instrs[len(iff.Block().Succs[0].Instrs)-1].(*ssa.Return); ok && classifyErr(ret) == ErrNonNil {
+					dimIf = iff
+				}
+			}
+		})
+		okDom := dimIf != nil
+		if dimIf != nil {
+			for _, wr := range stateWrites(w, fn, map[string]bool{"mu": true, "nextID": true}) {
+				if !domInstr(dimIf, wr) {
+					okDom = false
+				}
+			}
+		}
+		r.Check(okDom, rule, "inv:"+k.Name+":dim", w.Pos(fn.Pos())+" "+w.Name(fn), "Add rejects len(vector) != dim before any store (stored vectors have exactly dim components)", "Add can store a vector whose length differs from dim: the reader's implicit bound idx.dim is wrong")
+	}
+	// (b) trained ⇒ len(centroids) == nlist
+	for _, kn := range []string{"ivf", "ivfpq"} {
+		k, err := kindByName(w, kn)
+		if err != nil {
+			continue
+		}
+		tr := w.Method(k.IndexT, "Train")
+		if tr == nil {
+			continue
+		}
+		c := NewCanon(w)
+		guard, kArg := false, false
+		allInstrs(tr, func(in ssa.Instruction) {
+			if bo, ok := in.(*ssa.BinOp); ok {
+				cmp, neg, ok := normCmp(c, bo)
+				if ok && !neg && cmp.Op == token.LSS && cmp.L == "len(P1)" && (cmp.R == "P0.nlist" || strings.HasPrefix(cmp.R, "(P0.nlist*c(")) {
+					guard = true
+				}
+			}
+			if call, ok := in.(*ssa.Call); ok && strings.HasSuffix(calleeName(call.Common()), ".KMeans") && c.S(call.Call.Args[1]) == "P0.nlist" {
+				kArg = true
+			}
+		})
+		r.Check(guard && kArg, rule, "inv:"+kn+":centroids", w.Pos(tr.Pos())+" "+w.Name(tr), "Train demands at least nlist vectors and asks k-means for nlist centroids (k-means returns min(k,n)) ⇒ len(centroids) == nlist when trained", fmt.Sprintf("size guard=%v, K=nlist=%v", guard, kArg))
+	}
+	// (c) codes have M bytes
+	for _, enc := range annEncodeFns(w) {
+		c := NewCanon(w)
+		ok := false
+		for _, ret := range returnsOf(enc) {
+			if mk, isMk := ret.Results[0].(*ssa.MakeSlice); isMk && c.S(mk.Len) == "P0.M" {
+				ok = true
+			}
+		}
+		r.Check(ok, rule, "inv:code-length:"+w.Name(enc), w.Pos(enc.Pos())+" "+w.Name(enc), "a code is make([]uint8, M)", "code length is not M")
+	}
 }
